@@ -13,5 +13,6 @@ CONSTANTS
   MaxRejects = 1
   Policies = {"ALL", "LEADER", "NONE"}
   UseCheckpoint = TRUE
+  Batch = 1
   IgnoreTaints = TRUE
 CHECK_DEADLOCK FALSE
